@@ -127,9 +127,12 @@ C09_Override == pc = "edit" /\ ~HIST /\ Weight(b) <= CK =>
 C13_Finish == SHAPE = "generic" => \A t \in TypesU : FinishString(t) = FinishCowBorrowed(t)
 
 BuildOut == BuildF(Sh, b.st, b.parts, LowerTab)
+\* the order-free set of defects agrees with the transcribed build(): none exactly when it succeeds, and its error is one of them
+C09_BuildDefects == pc = "edit" => LET d == BuildDefects(Sh, b.st, b.parts, LowerTab) IN
+                        (BuildOut.ok <=> d = {}) /\ (~BuildOut.ok => BuildOut.err \in d)
 EmitBuild == (pc = "edit" /\ ~HIST) =>
    PrintT(<<"CASE", ToJson([k |-> "build", sh |-> SHAPE, st |-> b.st, parts |-> b.parts, out |-> Outcome(BuildOut),
-                             jerr |-> (~BuildOut.ok /\ BuildOut.err = "MissingNamespace"),
+                             jerr |-> (BuildDefects(Sh, b.st, b.parts, LowerTab) = {"MissingNamespace"}),
                              rt |-> IF BuildOut.ok THEN DropInsig(BuildOut.v) ELSE <<>>])>>)
 EmitSeq == (HIST /\ pc \in {"done", "err", "dead"}) =>
    PrintT(<<"CASE", ToJson([k |-> "bseq", sh |-> SHAPE, ops |-> hist, out |-> Outcome(out),
